@@ -82,13 +82,14 @@ def rand_stream(kind, n):
 
 def cases(tier, seed):
     if tier == "quick":
-        exh = small_cases(1, 2) + small_cases(2, 2) + small_cases(3, 2) + small_cases(2, 3) + small_cases(4, 2)
+        yield from small_cases(1, 2) + small_cases(2, 2) + small_cases(2, 3) + small_cases(3, 2)
+        exh = small_cases(4, 2)
         yield from interleave(exh, rand_stream("walk", 120000),
                               rand_stream("wide", 160), rand_stream("errors", 1500),
                               rand_stream("boundary", 300))
     else:
-        exh = small_cases(1, 2) + small_cases(2, 2) + small_cases(3, 2) + small_cases(2, 3) + \
-            small_cases(4, 2) + small_cases(3, 3) + small_cases(4, 3) + small_cases(5, 2)
+        yield from small_cases(1, 2) + small_cases(2, 2) + small_cases(2, 3) + small_cases(3, 2)
+        exh = small_cases(4, 2) + small_cases(3, 3) + small_cases(4, 3) + small_cases(5, 2)
         yield from interleave(exh, rand_stream("walk", 6000000),
                               rand_stream("wide", 20000), rand_stream("errors", 30000),
                               rand_stream("boundary", 5000))
